@@ -421,6 +421,14 @@ func (x *c18Exec) run(path []c18Op) (fail *c18Fail) {
 			if msg := e.validPos(after); msg != "" {
 				return &c18Fail{"position-outside-source:Advance", fmt.Sprintf("step %d %s: %s", i, o, msg), "", ""}
 			}
+			if !e.Block && n > 0 && after.Seg.Start == len(e.Src) && after.Seg.Padding == 0 && e.Src[len(e.Src)-1] != '\n' {
+				// moved forward to the very end of a source whose last line has no line ending: the cursor is still on that
+				// line, so its column is the tab-expanded width of the line
+				want := e.column(c18Pos{Seg: text.NewSegment(len(e.Src), len(e.Src))})
+				if got := rd.LineOffset(); got != want {
+					return &c18Fail{"lineoffset-differs-from-column", fmt.Sprintf("step %d %s reached the end of the source on its unterminated last line: LineOffset = %d, the tab-expanded width of that line is %d", i, o, got, want), fmt.Sprint(want), fmt.Sprint(got)}
+				}
+			}
 			x.b2 = e.fullView(x.b2, after)
 			if !bytes.Equal(x.b2, x.b1[n:]) {
 				return &c18Fail{"advance-moved-wrong-distance", fmt.Sprintf("step %d %s from line %d %+v: remaining view is %q, expected %q", i, o, before.Line, before.Seg, x.b2, x.b1[n:]), string(x.b1[n:]), string(x.b2)}
